@@ -1,6 +1,6 @@
 (* C08 -- Blocks render independently, in order (partial: see MANIFEST level text). *)
 From Rimu Require Import Base Unicode Regex RegexAnalysis RegexParse Str Types Tables Guards State Inline Block
-  Frame FrameBlock FrameInst OptionsLemmas MiscLemmas MoreLemmas Plain TableFacts.
+  Frame FrameBlock FrameInst OptionsLemmas MiscLemmas MoreLemmas Plain TableFacts PlainDoc Lines.
 
 (* the block loop emits the rendering of the first block followed by the rendering of the rest,
    from the state and reader the first block left *)
@@ -45,6 +45,13 @@ Theorem C08_block_table :
    ($"paragraph", $"<p>", $"</p>", false, false)].
 Proof. exact block_table. Qed.
 Print Assumptions C08_block_table.
+
+(* end to end: a one-line document over the safe alphabet (any length) in a session with the default definitions and nothing pending renders to exactly one paragraph holding the escaped line; no diagnostic, session unchanged *)
+Theorem C08_plain_paragraph : forall n l s,
+  quiet_default s -> safe_line l ->
+  doc_render (S (S (S (S (S n))))) l s = Ok ($"<p>" ++ escape l ++ $"</p>", s).
+Proof. exact plain_line_document. Qed.
+Print Assumptions C08_plain_paragraph.
 
 Example C08_ex :
   match api_render 40 ($"## H" ++ [10;10] ++ $"p1" ++ [10;10] ++ $"..c" ++ [10] ++ $"in" ++ [10] ++ $".." ++ [10;10] ++ $"// x" ++ [10] ++ $"p2")
